@@ -463,7 +463,9 @@ class ContractInterp(Interp):
         c = self.variant_view(c)
         st = self.st
         sname = self.short(c)
-        if c.bounded:
+        if c.bounded and c.bounded_clauses:
+            st.assumed_used.add(f"clauses {c.bounded_clauses} of {c.fn} checked only by a bounded stand-in (not proved); its other clauses are proved")
+        elif c.bounded:
             st.assumed_used.add(f"contract checked only by a bounded stand-in (not proved): {c.fn}")
         elif c.assumed:
             st.assumed_used.add(f"assumed contract: {c.fn}" + (f" ({c.note})" if c.note else ""))
